@@ -129,6 +129,10 @@ def gen_history(schema, ty, rnd, n, emphasis=None):
                     ops.append({"op": "setin", "f": f["name"], "x": g["name"], "v": rnd.choice(gen.scalar_domain(g["kind"]))})
         elif emphasis == "inplace" and c < .6:
             ops.append({"op": rnd.choice(["len", "bytes", "observe"])})
+        elif emphasis == "unknown" and c < .45:
+            # several parses into one object: what an earlier parse kept as unknown must survive the later ones
+            ops.append({"op": "parse", "src": gen.rmsg(schema, ty, rnd, density=rnd.choice([0.0, 0.1, 0.3])),
+                        "unk": [rnd.randrange(5) for _ in range(rnd.choice([0, 1, 1, 2, 3]))]})
         elif c < w_set:
             f = rnd.choice(mem) if (mem and (emphasis == "oneof" or rnd.random() < .4)) else rnd.choice(fields)
             ops.append({"op": "set", "f": f["name"], "v": rand_value(schema, f, rnd)})
@@ -139,7 +143,8 @@ def gen_history(schema, ty, rnd, n, emphasis=None):
                 ops.append({"op": "setin", "f": f["name"], "x": g["name"], "v": rnd.choice(gen.scalar_domain(g["kind"]))})
         elif c < w_set + .2:
             ops.append({"op": "parse", "src": gen.rmsg(schema, ty, rnd, density=rnd.choice([0.1, 0.3])),
-                        "unk": [rnd.randrange(5) for _ in range(rnd.choice([0, 0, 1, 2]))] if emphasis in ("observers", "presence") else []})
+                        "unk": [rnd.randrange(5) for _ in range(rnd.choice([0, 0, 1, 2] if emphasis != "unknown" else [1, 1, 2, 3]))]
+                        if emphasis in ("observers", "presence", "unknown") else []})
         elif c < w_set + .25:
             kw = []
             for f in rnd.sample(fields, min(len(fields), rnd.randint(0, 3))):
